@@ -180,6 +180,13 @@ def exc_cause(run, self):
     return NONE
 
 
+@method(type, "__repr__")
+def type_repr(run, self):
+    if isinstance(self, VNative) and isinstance(self.obj, type):
+        return VStr(str, repr(self.obj))
+    raise Unsupported("repr of a symbolic class")
+
+
 @method(BaseException, "__repr__", "__str__")
 def exc_repr(run, self):
     return VStr(str, run.fresh("hv_excstr", z3.StringSort()))
@@ -361,21 +368,37 @@ def _int_of_digits(run, x, base):
     if not isinstance(base, int) or not 2 <= base <= 36:
         return None
     t = x.t
+    units = flat_units(t)
+    if units is not None and 1 <= len(units) <= 22:
+        return _int_of_codes(run, [z3.IntVal(u) if isinstance(u, int) else u for u in units], base)
     # only texts whose length the path condition determines (no forking over lengths)
     if run.solver.check() != z3.sat:
         return None
     n = run.solver.model().eval(z3.Length(t), model_completion=True)
-    if not z3.is_int_value(n) or not 1 <= n.as_long() <= 16:
+    if not z3.is_int_value(n) or not 1 <= n.as_long() <= 22:
         return None
     n = n.as_long()
     if run.feasible(z3.Length(t) != n):
         return None
     codes = [z3.StrToCode(z3.SubString(t, i, 1)) for i in range(n)]
+    return _int_of_codes(run, codes, base)
+
+
+def _int_of_codes(run, codes, base):
+    n = len(codes)
+    # an optional sign, when the path condition determines the first character to be one
+    sign = 1
+    if n >= 2:
+        for ch, sg in (("-", -1), ("+", 1)):
+            if not run.feasible(codes[0] != ord(ch)):
+                sign, codes, n = sg, codes[1:], n - 1
+                break
     dv = [_digit_val(c) for c in codes]
     if not run.branch(z3.And(*[d >= 0 for d in dv])):
         return None
     if run.branch(z3.And(*[d < base for d in dv])):
-        return z3.Sum(*[d * (base ** (n - 1 - i)) for i, d in enumerate(dv)]) if n > 1 else dv[0]
+        mag = z3.Sum(*[d * (base ** (n - 1 - i)) for i, d in enumerate(dv)]) if n > 1 else dv[0]
+        return mag if sign == 1 else -mag
     if base in (2, 8, 16) and n >= 2 and run.branch(z3.And(codes[0] == 48, z3.Or(*[codes[1] == ord(ch) for ch in "xXoObB"]))):
         return None     # a base prefix such as 0x: left to the over-approximation
     run.throw(ValueError, f"invalid literal for int() with base {base}")
@@ -416,6 +439,10 @@ def int_new(run, clsv, x=None, base=None, **kw):
         h = run.ghost.get("int_of_str")
         if h is not None:
             return VInt(cls, h(run, x))
+        if isinstance(x, VStr) and run.ghost.get("exact_numerals"):
+            exact = _int_of_digits(run, x, 10)
+            if exact is not None:
+                return VInt(cls, exact)
         known = run.ghost.get("rendered_ints", {}).get(x.t.get_id())
         if known is not None:
             return VInt(cls, known)            # int(str(n)) == n
@@ -709,6 +736,37 @@ def _slice_bounds(run, n, sl):
     return lo, hi
 
 
+def flat_units(t):
+    """a string term that is structurally a concatenation of string constants and str.from_code(c) units -> the list of its
+    characters' code points (python ints / z3 Int terms); None for any other term"""
+    out = []
+    stack = [t]
+    while stack:
+        e = stack.pop()
+        if z3.is_string_value(e):
+            out.extend(ord(ch) for ch in _se().zstr_to_py(e))
+        elif z3.is_app(e) and e.decl().kind() == z3.Z3_OP_SEQ_CONCAT:
+            stack.extend(reversed(e.children()))
+        elif z3.is_app(e) and e.decl().kind() == z3.Z3_OP_STR_FROM_CODE:
+            out.append(e.arg(0))
+        else:
+            return None
+    return out
+
+
+def units_term(units):
+    parts = []
+    for u in units:
+        if isinstance(u, int) and parts and isinstance(parts[-1], str):
+            parts[-1] += chr(u)
+        elif isinstance(u, int):
+            parts.append(chr(u))
+        else:
+            parts.append(z3.StrFromCode(u))
+    parts = [z3.StringVal(x) if isinstance(x, str) else x for x in parts]
+    return z3.StringVal("") if not parts else (parts[0] if len(parts) == 1 else z3.Concat(*parts))
+
+
 @method(str, "__getitem__")
 def str_getitem(run, self, idx):
     se = _se()
@@ -716,6 +774,10 @@ def str_getitem(run, self, idx):
         if is_concrete(self) and all(is_concrete(x) for x in (idx.lo, idx.hi, idx.step)):
             s = se.conc(VStr(str, self.t))
             return VStr(str, s[slice(se.conc(idx.lo), se.conc(idx.hi), se.conc(idx.step))])
+        if all(is_concrete(x) for x in (idx.lo, idx.hi, idx.step)) and se.conc(idx.step) in (None, 1):
+            units = flat_units(self.t)
+            if units is not None:        # every piece has a known length: the slice is computed structurally (exact)
+                return VStr(str, units_term(units[slice(se.conc(idx.lo), se.conc(idx.hi))]))
         n = z3.Length(self.t)
         lo, hi = _slice_bounds(run, n, idx)
         ln = z3.If(hi - lo < 0, 0, hi - lo)
